@@ -21,7 +21,7 @@ COMPONENTS = {
     'real': ['artap.operators.Selector.fast_nondominated_sorting', 'artap.operators.ParetoDominance', 'NSGAII / OMOPSO run loops'],
     'stub': ['user objective', 'PRNG seam', 'joblib', 'time.time', 'uuid1'],
 }
-PROBES_EXPECTED = ['sorting_after_failed_call', 'epsilon_configured_selector', 'sort_calls', 'duplicate_costs', 'mixed_feasibility', 'depth_ge_3', 'depth_ge_5', 'all_front_one',
+PROBES_EXPECTED = ['tie_at_infinity_many_objectives', 'mixed_design_classes', 'sorting_after_failed_call', 'epsilon_configured_selector', 'sort_calls', 'duplicate_costs', 'mixed_feasibility', 'depth_ge_3', 'depth_ge_5', 'all_front_one',
                    'reordered_pools', 'rescaled_pools', 'nsga2', 'omopso']
 
 
@@ -82,15 +82,32 @@ def hooks(ctx, w, D):
                     orig(self, [ok_, bad])
                 except Exception:
                     ctx.probe('sorting_after_failed_call')
-            for variant in (0, 1, 2, 3):
-                order = list(range(n))[::-1] if variant in (0, 3) else sorted(
+            for variant in (0, 1, 2, 3, 4, 5):
+                order = list(range(n))[::-1] if variant in (0, 3, 5) else sorted(
                     range(n), key=lambda i: D.dec('work', ('shuf', st['n'], i), 1 << 16))
                 clones = []
                 for i in order:
                     src = individuals[i]
-                    c = src.__class__(list(src.vector))
-                    c.id = src.id
+                    if variant == 5 and len(clones) % 3 == 1:
+                        # a population that mixes design classes (designs read back from a store are plain Individuals, the
+                        # neighbours of the robust evaluators too; a second algorithm on the same problem brings its own
+                        # class) with the ids the library itself hands out
+                        c = Individual(list(src.vector))
+                    elif variant == 5 and len(clones) % 3 == 2:
+                        from artap.algorithm_swarm import IndividualSwarm
+                        from artap.algorithm_NSGAII import IndividualNSGAII
+                        c = (IndividualNSGAII if isinstance(src, IndividualSwarm) else IndividualSwarm)(list(src.vector))
+                    else:
+                        c = src.__class__(list(src.vector))
+                    if variant != 5:
+                        c.id = src.id
                     c.costs_signed = list(src.costs_signed)
+                    if variant == 4:
+                        # at least four objectives (copies of objective 0 change no dominance relation) and one more in which
+                        # every member holds the same +inf (a penalty value): an exact tie there, the ranks stay what they were
+                        obj = c.costs_signed[:-1]
+                        obj = obj + [obj[0]] * max(0, 3 - len(obj)) + [float('inf')]
+                        c.costs_signed = obj + [c.costs_signed[-1]]
                     if variant == 2:
                         # a strictly increasing map of one objective (huge scale and offset) leaves every rank unchanged,
                         # but sums / differences of costs now lose the small objectives to rounding
@@ -110,8 +127,12 @@ def hooks(ctx, w, D):
                 ctx.probe('reordered_pools')
                 if variant == 2:
                     ctx.probe('rescaled_pools')
-                if not judge(clones, site, 'pool of %d in %s order%s' % (n, 'reversed' if variant in (0, 3) else 'shuffled',
-                                                                           ' with objective 0 mapped to c*1e17+4e17' if variant == 2 else ' by a tournament selector configured with the epsilon comparator' if variant == 3 else '')):
+                if variant == 4:
+                    ctx.probe('tie_at_infinity_many_objectives')
+                if variant == 5:
+                    ctx.probe('mixed_design_classes')
+                if not judge(clones, site, 'pool of %d in %s order%s' % (n, 'reversed' if variant in (0, 3, 5) else 'shuffled',
+                                                                           ' with objective 0 mapped to c*1e17+4e17' if variant == 2 else ' by a tournament selector configured with the epsilon comparator' if variant == 3 else ' padded to >= 4 objectives with a common +inf objective' if variant == 4 else ' as a mix of design classes with library-assigned ids' if variant == 5 else '')):
                     break
             Individual.counter = saved
         return r
